@@ -91,6 +91,13 @@ func main() {
 		sort.Strings(ks)
 		fmt.Println("# declared functions of the reference tree; a function not listed here is inlined into its callers (inline.go)")
 		fmt.Println(strings.Join(ks, "\n"))
+	case "roles":
+		os.Setenv("GVERIF_NOINLINE", "1")
+		os.Setenv("GVERIF_NORENAME", "1")
+		if err := printRoles(); err != nil {
+			fmt.Println("load failed:", err)
+			os.Exit(1)
+		}
 	case "check":
 		if len(rest) != 1 {
 			usage()
